@@ -219,6 +219,8 @@ def check(ctx):
               "a type without recorded edges is treated as independent and may be emitted before what it references")
     from c07 import check_harvester_normalisation
     check_harvester_normalisation(S, r4)
+    from c07 import check_type_text_splitting
+    check_type_text_splitting(P, r4)
     for v in r4.violations:
         v.rule = r4.id
     rl = P.find("CommandAnalyzer::resolve_types_lazily")
